@@ -259,6 +259,8 @@ def run(prog, rep, tier):
         rep.unk("RESULT.list", fwhere(f), "a mode returns a comprehension: not read by the list rules")
     elif ret[0] == "after" and len(loops) == 1:
         rep.unk("RESULT.list", fwhere(f), "one list built by one loop for both modes: not read by the per-mode rules")
+    elif ret[0] == "join" or any(isinstance(x, tuple) and x[:1] == ("comp",) for x in walk(ret)):
+        rep.unk("RESULT.list", fwhere(f), "the modes return through different statements / a comprehension (%s): not read by the list rules" % fmt(ret)[:80])
     else:
         rep.check("RESULT.list", ret[0] == "phi" and ret[1] == REPL and all(x[0] == "after" for x in ret[2:4]), fwhere(f),
                   "returns the list built by the selected mode", "result is %s" % fmt(ret)[:80])
